@@ -73,7 +73,7 @@ def cases():
     out.append({"k": "kwdata", "arg": "I(x=z)", "col": "z", "eq": None})
     out.append({"k": "kwdata", "arg": "binary(x=e0, success='')", "col": "e0", "eq": ""})
     for fn in ("prop", "p", "proportion"):
-        for tr in ("n", "9", "n + 1", "trials=n", "trials=9", "n * 2"):
+        for tr in ("n", "9", "n + 1", "trials=n", "trials=9", "n * 2", "5", "trials=5"):  # 5 = the largest number of successes: not more than the trials
             out.append({"k": "prop", "fn": fn, "tr": tr})
     for succ, tr in (("xf", "n"), ("n", "s"), ("s", "9.5"), ("s", "3"), ("s", "z"), ("3", "n"), ("s", "'9'")):
         out.append({"k": "prop-invalid", "succ": succ, "tr": tr})
@@ -264,7 +264,10 @@ def check_case(case, acc):
                 acc.calls += 1
                 acc.traces += 1
                 try:
-                    got = np.asarray(dm.response.evaluate_new_data(nd), dtype=float).reshape(-1)
+                    raw = dm.response.evaluate_new_data(nd)
+                    got = np.array(raw, dtype=float).reshape(-1)
+                    if isinstance(raw, np.ndarray) and raw.flags.writeable:
+                        raw[...] = -1  # the reported trials are the caller's: overwriting them must not reach any later report
                 except Exception as e:
                     problems.append(("prop-prediction", exc_sig(e), f"{arg}: response.evaluate_new_data on rows {idx} raised {type(e).__name__}: {e}"))
                     break
